@@ -284,14 +284,35 @@ func runC17(c *Ctx) {
 			c.Check(ok, "O4", "DOM", funcKey(syncForPods)+": consumers deleted only without a reservation pod", instrPos(in), trunc(d, 120), "consumers of a group can be deleted although the group has a reservation pod")
 		}
 		c.Check(len(instrsIn(syncForPods, isCallToFn(delRes))) == 1 && len(instrsIn(syncForPods, isCallToFn(delCons))) == 1, "O4", "REG", funcKey(syncForPods)+": both repair directions present", syncForPods.Pos(), "reservation-without-consumers and consumers-without-reservation", "the sync lost one of its two repair directions")
-		// consumers counted are Running or Pending
+		// consumers counted are Running or Pending: every way of reaching the statement that files a pod as a
+		// consumer has established one of the two phases (directly, through slices.Contains on the phase, or
+		// through a predicate helper all of whose accepting paths did)
 		cnt := 0
 		for _, in := range instrsIn(syncForPods, func(in ssa.Instruction) bool {
-			cc, ok := in.(ssa.CallInstruction)
-			return ok && calleeOf(cc) != nil && strings.HasPrefix(calleeOf(cc).Name(), "Contains")
+			mu, ok := in.(*ssa.MapUpdate)
+			return ok && strings.Contains(typeKey(mu.Map.Type()), "[]*k8s.io/api/core/v1.Pod")
 		}) {
-			t := termOf(in.(ssa.CallInstruction).Common().Args[0]).String() + termOf(in.(ssa.CallInstruction).Common().Args[1]).String()
-			if strings.Contains(t, "Status.Phase") {
+			isPhase := func(fs FactSet) bool {
+				_, ok := fs.find(func(f Fact) bool {
+					if !f.Pol {
+						return false
+					}
+					if f.T.Op == "bin" && f.T.Name == "==" && len(f.T.Args) == 2 && f.T.Args[0].lastField() == "Phase" {
+						a := f.T.Args[1].String()
+						return strings.Contains(a, `"Running"`) || strings.Contains(a, `"Pending"`)
+					}
+					if f.T.Op == "call" && strings.Contains(f.T.Name, "Contains") {
+						for _, a := range f.T.Args {
+							if a.lastField() == "Phase" {
+								return true
+							}
+						}
+					}
+					return false
+				})
+				return ok
+			}
+			if fx.allPathsSatisfy(in, isPhase) {
 				cnt++
 			}
 		}
